@@ -560,7 +560,13 @@ impl Observer {
 							HTLCHandlingFailureType::Receive { .. } => "receive",
 							_ => "other",
 						};
-						self.res.push(format!("handling-failed {}", k));
+						// informational event: the library may emit it again for the same HTLC when chain data is
+						// delivered redundantly (the upstream failure itself, compared above, is sent once), so only
+						// its presence per class is compared, not its multiplicity
+						let tag = format!("handling-failed {}", k);
+						if !self.res.contains(&tag) {
+							self.res.push(tag);
+						}
 					},
 					Event::ChannelClosed { channel_id, reason, .. } => self.closed.push(format!("{} {}", vcore::hex(&channel_id.0[..4]), reason_class(&reason))),
 					Event::SpendableOutputs { outputs, .. } => {
